@@ -37,14 +37,14 @@ def check(ctx):
     nint = 0
     for tu in ctx.tus:
         check_tu(ctx, tu)
-        nint += run_slot_rules(ctx, 'C13.S5', None, tu, only_kinds=('P-',), classes=('EventQueueBase',),
+        nint += run_slot_rules(ctx, 'C13.S5', 'C13.S5', tu, only_kinds=('P-', 'O-drop'), classes=('EventQueueBase',),
                                fn_filter=lambda f: 'OrderedQueueList' in f.clsq or 'PoliciesOrdered' in f.clsq)
     ctx.require(nint >= 6, 'C13.S5: fewer than 6 processing functions of queues with the ordered list were interpreted (%d)' % nint)
     ctx.require_min('C13.S5', 4)
     ctx.require_min('C13.S1', 3)
     ctx.require_min('C13.S2', 1)
     ctx.require_min('C13.S3', 1)
-    witness.check_static_unit(ctx, 'C13.S4', os.path.join(extract.VERIF, 'witness', 's_select.cpp'), 'queue list selection')
+    witness.check_static_unit(ctx, 'C13.S4', os.path.join(extract.VERIF, 'witness', 's_select.cpp'), 'queue list selection', tag='C13')
 
 
 def guarded_gets(ctx, tu, rule):
